@@ -54,6 +54,13 @@ def run(ctx):
                         params={"ROUNDS": ctx.pick(8, 60), "MS": ctx.pick(500, 1500)})
     out = out0 + out
     rc = rc or rc0
+    # the stream fan-out (internal/stream) is part of the statement's "publishing, reading":
+    # its stress driver (owned by C17) runs here for the race detector's verdict only
+    rc2, out2 = vf.gotest(ctx, "./internal/stream/", "^TestVerif_C17_Stress$", race=True, timeout=1200,
+                          params={"STRESSOUT": ctx.path("stream_stress.ndjson"), "ROUNDS": ctx.pick(6, 40)})
+    if rc2 != 0 and "WARNING: DATA RACE" not in out2:
+        raise vf.Infra("stream stress failed (rc=%d)\n%s" % (rc2, out2[-4000:]))
+    out += out2
     races = re.findall(r"WARNING: DATA RACE.*?(?:==================|\Z)", out, re.S)
     if rc != 0 and not races:
         raise vf.Infra("stress harness failed (rc=%d)\n%s" % (rc, out[-5000:]))
